@@ -166,11 +166,10 @@ def main(tier):
     gdir = os.path.join(REPO, "src/Geometry")
     pun += [os.path.join(gdir, x) for x in sorted(os.listdir(gdir)) if x.startswith("BiTargetCheck") and x.endswith(".cpp")]
     pun += [os.path.join(REPO, "src/Core/variopgs.cpp")]       # the geometry of the PGS variograms enumerates its pairs like Vario.cpp (rule C12t)
-    pprog = Program().load_dir(extract(pun, "C12p-" + tier)) if tier != "thorough" else prog
-    if tier != "thorough":
-        dh, excluded = facts.extract_headers("C12h-" + tier)
-        pprog.load_dir(dh)
-        chk.units += [u for u in pprog.units if u not in chk.units]
+    pprog = Program().load_dir(extract(pun, "C12p-" + tier))
+    dh, excluded = facts.extract_headers("C12h-" + tier)
+    pprog.load_dir(dh)
+    chk.units += [u for u in pprog.units if u not in chk.units]
     argswap.rule(pprog, chk, "C12p", file_filter=("src/Variogram/", "src/Geometry/BiTargetCheck"), floor_n=4)
     # C12s: a limit on the separation of a pair is applied to a sign-free quantity.  In the `isOK` of a pair checker a refusal `if (x > _limit)`
     # whose `x` is a bare component of the increment between the two samples (signed: it changes sign with the order of the pair) keeps or rejects
